@@ -1,8 +1,10 @@
 package props
 
 import (
+	"fmt"
 	"go/token"
 	"go/types"
+	"os"
 	"sort"
 	"strings"
 
@@ -90,13 +92,28 @@ func ruleEmptyParamsUntouched(c *chk.Ctx) {
 		return
 	}
 	bad := ""
+	hp := c.M.Func(c.M.Pkg, "(*Request).HasParams")
 	for _, w := range ws {
 		ok := false
-		for _, cd := range ir.CondsAt(w.Block()) {
-			if s, isNE := ir.NonEmptyLen(cd); isNE && chk.LoadsField(ir.NormCell(s), c.M.QParams) {
-				ok = true
+		// (the test may be spelled with a predicate such as HasParams)
+		alts := expandPredicateHelpers(c, c.P.CondsWithin(w, f), 0)
+		okAll := len(alts) > 0
+		for _, alt := range alts {
+			has := false
+			for _, cd := range alt {
+				if s, isNE := ir.NonEmptyLen(cd); isNE && chk.LoadsField(ir.NormCell(s), c.M.QParams) {
+					has = true
+				}
+				// HasParams is exactly len(params) != 0 (TABLE.params)
+				if call, isCall := cd.V.(*ssa.Call); isCall && cd.Truth && hp != nil && call.Call.StaticCallee() == hp {
+					has = true
+				}
+			}
+			if !has {
+				okAll = false
 			}
 		}
+		ok = okAll
 		if !ok && bad == "" {
 			bad = c.P.Pos(w.Pos())
 		}
@@ -235,7 +252,24 @@ func ruleMixedFieldsRejected(c *chk.Ctx) {
 					if !ok && tail[cd] {
 						continue
 					}
+					// a range loop over the members has run to its end
+					if e, isE := cd.V.(*ssa.Extract); !ok && isE && e.Index == 0 && !cd.Truth {
+						if _, isNext := e.Tuple.(*ssa.Next); isNext {
+							continue
+						}
+					}
+					// the member decoded as a JSON object at all: every field test sits under it
+					if x, eq, isCmp := ir.NilCompare(cd.V); !ok && isCmp && eq == cd.Truth {
+						if call, isCall := ir.NormCell(x).(*ssa.Call); isCall && ir.IsCallTo(&call.Call, "encoding/json.Unmarshal") {
+							if _, isParam := ir.NormCell(call.Call.Args[0]).(*ssa.Parameter); isParam {
+								continue
+							}
+						}
+					}
 					if !ok {
+						if os.Getenv("JRPCVET_DEBUG") != "" {
+							fmt.Fprintf(os.Stderr, "TABLE.mixed: site %s: unmapped %v=%v\n", c.P.Pos(ins.Pos()), cd.V, cd.Truth)
+						}
 						return
 					}
 					if n == "M" {
@@ -446,6 +480,36 @@ func reachesKnowing(from, start *ssa.BasicBlock, after ssa.Instruction, goal, st
 	}
 	ok := walk(from, start, env0, 0)
 	return ok, hit
+}
+
+// valueWay is one way a stored value comes about: the value chosen and the
+// branch outcomes under which it is chosen.
+type valueWay struct {
+	val   ssa.Value
+	conds []ir.Cond
+}
+
+// storedWays lists the ways the value of store st comes about: the value itself
+// under the outcomes known at the store, or — when the value was chosen on
+// earlier branches and is stored at a shared point (`x = a` on one arm, the
+// zero value otherwise, `msg.f = x` afterwards) — each chosen value with the
+// outcomes of its edge.
+func storedWays(c *chk.Ctx, st *ssa.Store, root *ssa.Function) []valueWay {
+	var out []valueWay
+	var expand func(v ssa.Value, conds []ir.Cond, depth int)
+	expand = func(v ssa.Value, conds []ir.Cond, depth int) {
+		if phi, ok := v.(*ssa.Phi); ok && depth < 4 {
+			for i, e := range phi.Edges {
+				pred := phi.Block().Preds[i]
+				cs := append(append([]ir.Cond{}, ir.CondsAt(pred)...), ir.EdgeConds(pred, phi.Block())...)
+				expand(e, cs, depth+1)
+			}
+			return
+		}
+		out = append(out, valueWay{v, conds})
+	}
+	expand(st.Val, c.P.CondsWithin(st, root), 0)
+	return out
 }
 
 // blockReachesFrom: b can be reached from a along control-flow edges.
